@@ -46,7 +46,7 @@ def one(item):
     finally:
         subprocess.call(["git","-C","/repo","worktree","remove","--force",wt],stdout=subprocess.DEVNULL,stderr=subprocess.DEVNULL)
         shutil.rmtree(wt, ignore_errors=True)
-with ThreadPoolExecutor(6) as ex:
+with ThreadPoolExecutor(int(os.environ.get("JOBS","6"))) as ex:
     res = list(ex.map(one, items))
 subprocess.call(["git","-C","/repo","worktree","prune"])
 bad = 0
